@@ -113,6 +113,7 @@ type SlashRecord struct {
 	Stack    string
 	Ev       *ParsedEvents
 	Real     bool // true: callback invoked by x/staking on the main line; false: probe
+	toppedUp bool // probe executed on a branch whose rewards pool was made solvent first
 	Idx      int
 }
 
@@ -309,8 +310,27 @@ func NewRunner(w *World, cfg Config, rep *Report) *Runner {
 }
 
 // SlashOn runs the module's slash callback on a branch of ctx and records pre/post/return value.
+// TopUpPool makes the rewards pool solvent on a branch (used to look past the recorded pool-short
+// findings: what else would fail in this state if the pool could pay?).
+func (r *Runner) TopUpPool(ctx sdk.Context) {
+	for _, c := range r.Cur.Supply {
+		coins := sdk.NewCoins(sdk.NewCoin(c.Denom, c.Amount))
+		if r.W.App.BankKeeper.MintCoins(ctx, "mint", coins) == nil {
+			_ = r.W.App.BankKeeper.SendCoinsFromModuleToModule(ctx, "mint", types.RewardsPoolName, coins)
+		}
+	}
+}
+
 func (r *Runner) SlashOn(ctx sdk.Context, val sdk.ValAddress, f math.LegacyDec, real bool) *SlashRecord {
+	return r.slashOn(ctx, val, f, real, false)
+}
+
+func (r *Runner) slashOn(ctx sdk.Context, val sdk.ValAddress, f math.LegacyDec, real bool, topUp bool) *SlashRecord {
 	rec := &SlashRecord{Val: val.String(), Fraction: f, Real: real, Idx: r.Idx}
+	if topUp {
+		ctx, _ = ctx.CacheContext()
+		r.TopUpPool(ctx)
+	}
 	rec.Pre = r.W.Snapshot(ctx)
 	bctx, _ := ctx.CacheContext()
 	em := sdk.NewEventManager()
